@@ -23,7 +23,7 @@ ASSUMPTIONS = [
     "must-accept: ascending distinct wells of one column, ascending distinct valid tips, valid numbers; must-reject: several columns, out-of-range grid/site/arm/volume, length mismatch; everything else either",
     "liquid classes are plain text without quotes, commas or semicolons (a semicolon is a must-reject)",
 ]
-BUDGET = {"quick": (4, 600), "thorough": (16, 15000)}
+BUDGET = {"quick": (4, 1200), "thorough": (16, 15000)}
 KNOWN_KINDS = {}
 STRATA = ["core", "order", "invalid", "wash"]
 REQUIRED_CLASSES = ["accepted", "rejected", "either:accepted", "either:rejected", "trough", "plate", "per-tip-volumes", "wash:accepted", "wash:rejected"]
